@@ -326,6 +326,22 @@ func c03Cases(c *h.Ctx) error {
 					}
 					c.Fail(site, "layout:"+c03FieldAt(d), fmt.Sprintf("byte %d: code %s, MS-CIFS 2.2.3.1 %s", d, h.Hex(b), h.Hex(ln.Enc)), smp)
 				}
+				// the accessor route: a header filled through SetMID/SetTID/SetUID encodes like the one filled field by field,
+				// and the getters return what was set
+				{
+					h2 := header.NewHeader()
+					c03SetHeader(h2, &x, sec, &ln.Connless)
+					mid, tid, uid := h2.MID, h2.TID, h2.UID
+					h2.MID, h2.TID, h2.UID = 0, 0, 0
+					h2.SetMID(mid)
+					h2.SetTID(tid)
+					h2.SetUID(uid)
+					b4, _ := h2.Marshal()
+					c.Exec(1)
+					if !bytes.Equal(b4, b) || h2.GetMID() != mid || h2.GetTID() != tid || h2.GetUID() != uid {
+						c.Fail("header.Header.SetMID", "accessors", fmt.Sprintf("header filled through SetMID/SetTID/SetUID encodes to %s (getters %d %d %d), filled directly to %s", h.Hex(b4), h2.GetMID(), h2.GetTID(), h2.GetUID(), h.Hex(b)), smp)
+					}
+				}
 				if got := w32(hd.GetPID()); got != ln.PID {
 					c.Fail("header.Header.GetPID", "pid", fmt.Sprintf("GetPID %#x, PIDHigh:PIDLow %#x", uint32(got), uint32(ln.PID)), smp)
 				}
